@@ -94,6 +94,7 @@ pub fn child(args: &[String]) -> i32 {
     let mut i = 0u64;
     let mut live_half = 0usize;
     let mut live_quarter = 0usize;
+    let mut blocks_half = 0isize;
     let mut ok = true;
     let set = cfg.values == 0;
     r.for_each(|k, v| {
@@ -105,6 +106,7 @@ pub fn child(args: &[String]) -> i32 {
         }
         if i == half {
             live_half = alloc::live();
+            blocks_half = alloc::blocks();
             alloc::reset_peak();
         }
         let res = if set { b.add(k) } else { b.insert(k, v) };
@@ -121,12 +123,13 @@ pub fn child(args: &[String]) -> i32 {
     let bytes_before_finish = b.bytes_written();
     let fin = b.finish();
     let peak_incl_finish = alloc::peak();
+    let peak_blocks_second_half = alloc::peak_blocks() - blocks_half;
     let evictions = fst::raw::verif::take_evictions();
     println!(
         "{}",
         json!({"ok": fin.is_ok(), "base": base, "after_new": after_new - base.min(after_new), "live_quarter": live_quarter.saturating_sub(base), "live_half": live_half.saturating_sub(base),
                "live_end": live_end.saturating_sub(base), "peak_second_half": peak_second_half.saturating_sub(base), "peak_incl_finish": peak_incl_finish.saturating_sub(base),
-               "evictions": evictions, "bytes_emitted": bytes_before_finish, "allocs": alloc::count()})
+               "evictions": evictions, "bytes_emitted": bytes_before_finish, "allocs": alloc::count(), "block_growth_second_half": peak_blocks_second_half.max(0)})
     );
     0
 }
@@ -166,6 +169,17 @@ pub fn check(cfg: &Config, rec: &mut Rec) -> Result<Value, Fail> {
             ),
         ));
     }
+    // blocks, not bytes: in a cache of <= 256 cells every cell has its buffer long before N/2, so the
+    // number of live heap blocks is flat from there on (a Vec that grows keeps its block); a leak of
+    // small blocks shows here even when its bytes drown in the tolerance above
+    // (larger caches: every configuration used here is saturated by N/2 as well - measured growth
+    // on the pinned tree is <= 8 blocks for all of them - but they get a far wider allowance)
+    if g("block_growth_second_half") > if tiny { 64 } else { 1024 } {
+        return Err(Fail::new(
+            "heap-blocks-grow-with-n",
+            format!("builder heap grows with the number of keys: the number of live heap blocks rose by {} while inserting keys {}..{} (cache of {} cells, saturated long before); config {}", g("block_growth_second_half"), cfg.n / 2, cfg.n, cfg.cells(), cfg.to_json()),
+        ));
+    }
     let forced = g("evictions") > 10 * cfg.cells();
     if !rec.muted {
         rec.class(if forced { "cache_forced_to_forget(>10x cells evictions)" } else { "cache_not_saturated" });
@@ -184,7 +198,7 @@ pub fn check(cfg: &Config, rec: &mut Rec) -> Result<Value, Fail> {
 }
 
 pub fn run(e: &Engine) {
-    e.set_rule("cases are (N, fan-out F, key length L, set/map, cache geometry): key sequences with bounded fan-out and length and an unbounded number of distinct nodes (base-F counter prefix + hashed suffix) streamed to a discarding sink (taking every write whole, or at most 1/3/4/8 bytes per call with every 7th call interrupted) inside a single-threaded child process with a counting global allocator; live heap is sampled after N/2 keys and the peak is tracked from there to the end of finish(); violation iff peak > 1.10 * live(N/2) + 128 KiB (+ 8 KiB only, for caches of <= 256 cells); non-trivial = the eviction hook counted more than 10x the number of cache cells (the cache was forced to forget); distinct by configuration");
+    e.set_rule("cases are (N, fan-out F, key length L, set/map, cache geometry): key sequences with bounded fan-out and length and an unbounded number of distinct nodes (base-F counter prefix + hashed suffix) streamed to a discarding sink (taking every write whole, or at most 1/3/4/8 bytes per call with every 7th call interrupted) inside a single-threaded child process with a counting global allocator; live heap is sampled after N/2 keys and the peak is tracked from there to the end of finish(); violation iff peak > 1.10 * live(N/2) + 128 KiB (+ 8 KiB only, for caches of <= 256 cells), or iff the number of live heap blocks rises by more than 64 (caches of <= 256 cells) / 1024 (larger caches) after N/2; non-trivial = the eviction hook counted more than 10x the number of cache cells (the cache was forced to forget); distinct by configuration");
     e.assume("an asymptotic claim checked at finitely many N; growth slower than 5% per doubling would pass");
     let n: u64 = e.tier.pick(1_500_000, 4_000_000);
     let mut cfgs = vec![];
